@@ -10,6 +10,8 @@ import re
 import vcheck as V
 
 PID = "C20"
+# parallel worker processes of the harness (one schedule each); VERIF_JOBS caps it on a shared machine
+JOBS = int(os.environ.get("VERIF_JOBS", "0")) or 2 * V.NCPU
 TRUSTED = [
     "Coq 8.16.1 kernel (coqc), full .vo build; vm_compute only in the closed Examples; no native_compute",
     "axioms: none (Print Assumptions: Closed under the global context for every theorem)",
@@ -66,7 +68,7 @@ def main(tier, replay=None):
         open(sched, "w").write(o)
         nrace = 24 if tier == "quick" else 400
     nproj = {field(l, "scenario"): int(field(l, "projections")) for l in V.read_lines(sched) if l.startswith("P ")}
-    rc, o, e = V.sh([outs[0], "-in", sched, "-out", res, "-j", str(2 * V.NCPU), "-race", str(nrace)], timeout=3000)
+    rc, o, e = V.sh([outs[0], "-in", sched, "-out", res, "-j", str(JOBS), "-race", str(nrace)], timeout=3000)
     if rc != 0:
         return c.finish(TRUSTED, no_input_break="harness cmd/c20 failed to run: " + (o + e)[-1500:])
     rc, mo, me = V.sh("%s check < %s" % (exe, res), timeout=1200)
